@@ -1081,6 +1081,54 @@ func (c *Ctx) rulePartSearch(rule string) {
 	switch {
 	case id == "sort.Search":
 		bo, ok := res.(*ssa.BinOp)
+		// a search over the parts' start offsets, stepped back by one afterwards
+		if ok {
+			isStart := func(v ssa.Value) bool {
+				v = ir.StripConv(v)
+				id := ir.FieldID(v)
+				if ld, isLd := v.(*ssa.UnOp); isLd && ld.Op == token.MUL {
+					id = ir.FieldID(ld.X)
+				}
+				return strings.HasSuffix(id, "offsetAndSource.off")
+			}
+			op := bo.Op
+			startLeft := isStart(bo.X) && isOff(bo.Y)
+			if isOff(bo.X) && isStart(bo.Y) {
+				startLeft = true
+				op = flip(op)
+			}
+			if startLeft && (op == token.GTR || op == token.GEQ) {
+				stepsBack := false
+				if search.Referrers() != nil {
+					var walk func(v ssa.Value, depth int)
+					walk = func(v ssa.Value, depth int) {
+						if v.Referrers() == nil || depth > 3 {
+							return
+						}
+						for _, r := range *v.Referrers() {
+							switch x := r.(type) {
+							case *ssa.BinOp:
+								if k, isK := ir.ConstInt(x.Y); isK && k == 1 && x.Op == token.SUB {
+									stepsBack = true
+								}
+							case *ssa.Phi:
+								walk(x, depth+1)
+							}
+						}
+					}
+					walk(search, 0)
+				}
+				switch {
+				case op == token.GTR && stepsBack:
+					c.R.Okf(rule, name(fn), "part-search", c.IPos(search), what+" (search over start offsets: first part starting beyond off, stepped back by one)")
+				case op == token.GEQ && stepsBack:
+					c.R.Violf(rule, name(fn), "part-search", c.IPos(search), what, "the search finds the first part that starts at or after off and steps back by one: a read that starts exactly at a part boundary selects the part before it, which contributes no byte — the read returns 0 bytes and EOF there and the rest of the image is not hashed")
+				default:
+					c.R.Infof(rule, name(fn), "part-search", c.IPos(search), "not decided for this shape: a search over the parts' start offsets whose result is not stepped back by one")
+				}
+				return
+			}
+		}
 		switch {
 		case ok && bo.Op == token.GTR && isEnd(bo.X) && isOff(bo.Y), ok && bo.Op == token.LSS && isOff(bo.X) && isEnd(bo.Y):
 			c.R.Okf(rule, name(fn), "part-search", c.IPos(search), what)
